@@ -10,6 +10,7 @@ from __future__ import annotations
 import json
 import os
 import random
+import re
 import shutil
 import subprocess
 import sys
@@ -50,7 +51,14 @@ def scan(ns_name, ns, is_class):
             def deeper(prefix, obj, depth):
                 if depth == 0 or not (isinstance(obj, types.ModuleType) or inspect.isclass(obj)):
                     return
-                for k2, v2 in list(vars(obj).items()):
+                members = dict(vars(obj))
+                if inspect.isclass(obj):
+                    # attribute access on a class also finds what it inherits (lookup along its MRO)
+                    members = {}
+                    for klass in reversed(obj.__mro__):
+                        if klass is not object:
+                            members.update(vars(klass))
+                for k2, v2 in list(members.items()):
                     if not k2.startswith('__'):
                         t2 = ident(v2)
                         if t2 is not None:
@@ -225,8 +233,11 @@ FIXED = [
     # two roots; the second one re-exports a class of its private module, the first one imports it from where it is defined
     ({'alpha/__init__.py': '', 'alpha/use.py': 'from beta._core import Wheel\nfrom beta._core import Wheel as W2\nimport beta._core as core\nclass Car:\n    from beta._core import Wheel as Inner\n    class Nest: pass\n',
       'beta/__init__.py': 'from beta._core import Wheel\n__all__ = ["Wheel"]\n', 'beta/_core.py': 'class Wheel:\n    def spin(self): pass\ndef unrelated(): pass\n',
-      'gamma.py': 'from beta._core import Wheel as GW\nimport beta\n'},
-     ['alpha', 'beta._core', 'beta', 'alpha.use', 'gamma']),
+      'gamma.py': 'from beta._core import Wheel as GW\nimport beta\n',
+      'alpha/late.py': 'from beta._core import Wheel\nclass Fancy(Wheel):\n    def shine(self): pass\nclass Leaf(Fancy):\n    pass\n', 'delta.py': 'import alpha.late as w\nimport beta._core as bc\n',
+      # the same subclass in a root that is analysed after the re-export happened
+      'zlate.py': 'from beta._core import Wheel\nclass Fancy2(Wheel):\n    def shine2(self): pass\nclass Leaf2(Fancy2):\n    pass\n', 'zuse.py': 'import zlate as w2\n'},
+     ['alpha', 'beta._core', 'beta', 'alpha.use', 'gamma', 'alpha.late', 'delta', 'zlate', 'zuse']),
     ({'a/__init__.py': 'class A0: pass\n', 'a/b/__init__.py': 'from .. import A0 as Up\nfrom ..c import C1\nfrom . import d\nfrom .d import D1 as Dx\n',
       'a/b/d.py': 'class D1:\n    class Nest: pass\n', 'a/c.py': 'class C1: pass\n',
       'a/e.py': 'import a.b.d\nimport a.b.d as dmod\nfrom a.b import d as d2\nfrom a import c\nclass E1(a.b.d.D1, dmod.D1.Nest, c.C1): pass\n'},
@@ -302,6 +313,16 @@ def _check(case):
                     # must resolve: imported directly from the defining module, or reached through a module alias
                     first = name.split('.')[0]
                     tob = by_id.get(target)
+                    # <alias>.<class defined in the aliased module>.<attribute, own or inherited>: reached through a module alias
+                    if tob is not None and name.count('.') >= 2 and scope in order:
+                        m_ = next((mm for mm in (re.fullmatch(r'import ([\w.]+) as ' + re.escape(first), l) for l in text.splitlines()) if mm), None)
+                        second = names.get(first + '.' + name.split('.')[1])
+                        if m_ is not None and second is not None and ':' in second:
+                            mfile = m_.group(1).replace('.', '/')
+                            if second.split(':')[0] in (mfile + '.py', mfile + '/__init__.py') and isinstance(by_id.get(second), model.Class):
+                                fails.append({'observed': f'in {scope}, {name!r} (Python: {target}) does not resolve', 'required': 'always resolves (reached through a module alias)',
+                                              'class': 'unresolved-through-alias'})
+                                continue
                     if tob is None or isinstance(tob, model.Module) or tob.parent is None or not isinstance(tob.parent, model.Module):
                         continue
                     tmod = target.split(':')[0][:-3].replace('/', '.').removesuffix('.__init__')     # the defining module, by file
@@ -313,6 +334,7 @@ def _check(case):
                     # `import <defining module> as <alias>` and the name <alias>.<object>
                     via_alias = name.count('.') == 1 and name.split('.')[1] == last and \
                         any(l.strip() == f'import {tmod} as {first}' for l in text.splitlines())
+                    # ... or, at any depth, through an alias of some module of the project (`import <module> as <alias>` at module level)
                     # `from <defining module> import *` standing in this scope's text (Python binds the name: it is in the run-time namespace)
                     direct_star = '.' not in name and name == last and any(l.strip() == f'from {tmod} import *' for l in text.splitlines())
                     if direct or via_alias or direct_star:
